@@ -13,8 +13,10 @@ RULE = ('decks whose universes contain LAT=1 cells: 1-, 2-, 3-D orthogonal and s
         'Streams: monitor (Lean spec lattice rule vs written file), model (Layer-B), helpers (LatticeBounds.indices / '
         'LatticeSpec / parse_ranges vs the Lean model, exhaustive small boxes). Non-trivial = deck has a lattice '
         'with more than one element.')
-NOT_PROVED = ['clipping of the lattice elements by the container cell (the C05 theorem: new cell = container ∧ filler) is not '
-              'restated for lattices; decided by the latmodel correspondence and the point monitor']
+NOT_PROVED = ['clipping of the lattice elements by the container cell is the C05 theorem (wrap_contains / leaf_inside: new cell = '
+              'container ∧ filler), which holds for any cells of the filling universe — after develop_lattice the elements are '
+              'such cells; it is not restated with the element regions written out (element (i,j,k) = the unit cell moved by '
+              'i·a1 + j·a2 + k·a3): that composition is decided by the latmodel correspondence and the point monitor']
 ASSUMPTIONS = ['unit cells are bounded by pairs of parallel planes listed pairwise (MCNP requirement)']
 
 
